@@ -866,3 +866,187 @@ Proof.
   - intros s R F. eexists. split; [exact (Hp s R F)|]. apply firstn_neq_self. simpl. lia.
   - eexists. split; [exact Hs|]. apply firstn_neq_self. simpl. lia.
 Qed.
+
+(* ------------------------------------------------------------------ the pre-existing path, concretely *)
+Lemma target_eqb_eq a b : target_eqb a b = true -> a = b.
+Proof.
+  destruct a as [| | |o r i], b as [| | |o' r' i']; simpl; try discriminate; try reflexivity.
+  intros H. apply andb_true_iff in H as [H Hi]. apply andb_true_iff in H as [Ho Hr].
+  apply Bool.eqb_prop in Ho, Hi. apply nlist_eqb_eq in Hr. congruence.
+Qed.
+
+Lemma openable_p_plain sc d : openable_p (openable (pre sc)) sc d = openable d.
+Proof.
+  unfold openable_p. destruct (target_eqb d (pre sc)) eqn:E.
+  - apply target_eqb_eq in E. subst d. destruct (openable (pre sc)); reflexivity.
+  - simpl. rewrite orb_true_r, andb_true_r. reflexivity.
+Qed.
+
+Lemma held_of_p_plain sc d : held_of_p (openable (pre sc)) sc d = held_of sc d.
+Proof. unfold held_of_p, held_of. rewrite openable_p_plain. reflexivity. Qed.
+
+Lemma agree_p_plain v par sc ob u o :
+  agree_p v par sc (openable (pre sc)) ob u o = agree v par sc ob u o.
+Proof.
+  unfold agree_p, agree. destruct (if par then par_all v sc else Some (seq_run v sc)) as [[x d]|]; [|reflexivity].
+  rewrite openable_p_plain. reflexivity.
+Qed.
+
+Lemma agree_held_p_plain v par sc ob h :
+  agree_held_p v par sc (openable (pre sc)) ob h = agree_held v par sc ob h.
+Proof.
+  unfold agree_held_p, agree_held. destruct (if par then par_all v sc else Some (seq_run v sc)) as [[x d]|]; [|reflexivity].
+  rewrite held_of_p_plain. reflexivity.
+Qed.
+
+(* the checker on concrete paths extends the one on abstract states: when both readings are the same scenario and
+   its pre-existing state opens exactly if it holds the marker, flags 0..10 are those of c09_case_held *)
+Theorem path_checker_conservative par sc ob u o h :
+  c09_path_low par sc sc (openable (pre sc)) ob u o h = c09_case_held par sc ob u o h.
+Proof.
+  unfold c09_path_low, c09_case_held, c09_case, judged.
+  rewrite !agree_p_plain, !agree_held_p_plain, !orb_diag.
+  replace (if spec_ok sc ob u o && cl_open_exact ob h then sc else sc) with sc by (destruct (_ && _); reflexivity).
+  unfold code. cbn [code_from].
+  destruct (agree_held v_cur par sc ob h || agree_held v_fix par sc ob h), (cl_open_exact ob h),
+    (Bool.eqb o (negb (held_eqb h HClosed)) && implb (held_eqb h HPre) u); lia.
+Qed.
+
+Lemma with_reading_id sc : with_reading sc (pre sc, overwrite sc, openable (pre sc)) = sc.
+Proof. destruct sc; reflexivity. Qed.
+
+(* a valid catalog next to anything, an absent path, a file, a directory without the marker: one reading, and the
+   abstract checker applies as it is *)
+Definition plain_path (p : fspath) : bool :=
+  match p with FLink _ => false | FDir es => Bool.eqb (dir_opens es) (has_marker es) | _ => true end.
+Theorem path_checker_plain par sc p ob u o h around : plain_path p = true ->
+  c09_case_path par sc p ob u o h around =
+  c09_case_held par (on_path guard_marker sc p) ob u o h
+  + 2048 * code [around; implb u (Bool.eqb o (openable (pre (on_path guard_marker sc p))))].
+Proof.
+  intros Hp. unfold c09_case_path, on_path, follow_reading.
+  assert (E : code_reading guard_marker p (overwrite sc) = plain_reading guard_marker (resolve p) (overwrite sc))
+    by (destruct p; try reflexivity; discriminate).
+  rewrite <- E.
+  set (r := code_reading guard_marker p (overwrite sc)).
+  assert (Eo : r_opens r = openable (pre (with_reading sc r))).
+  { unfold r. destruct p as [| | |es|q]; try reflexivity; [|discriminate].
+    simpl in Hp. apply Bool.eqb_prop in Hp. cbn. unfold guard_marker. rewrite Hp. destruct (has_marker es); reflexivity. }
+  rewrite Eo. rewrite path_checker_conservative. reflexivity.
+Qed.
+
+(* "is a catalog cache" is the presence of the marker in the listing, nothing else *)
+Theorem guard_marker_exact es : guard_marker es = true <-> In EMarker es.
+Proof.
+  unfold guard_marker, has_marker. rewrite existsb_exists. split.
+  - intros (e & Hin & He). destruct e; try discriminate. exact Hin.
+  - intros Hin. exists EMarker. split; [exact Hin|reflexivity].
+Qed.
+
+(* the class: ANY guard that accepts only listings holding the marker obliges the pipeline to keep every existing
+   path that is not a catalog cache - whatever the names and the number of its entries, a regular file, a link to
+   anything - and to raise *)
+Definition sound_guard (g : guard) : Prop := forall es, g es = true -> has_marker es = true.
+Lemma guard_marker_sound : sound_guard guard_marker.
+Proof. intros es H. exact H. Qed.
+
+Lemma non_cache_must_stay g sc p : sound_guard g -> is_cache p = false -> p <> FAbsent ->
+  must_stay (on_path g sc p) = true.
+Proof.
+  intros Hg Hc Hne. unfold on_path.
+  destruct p as [| | |es|q]; try reflexivity; [congruence| |].
+  - simpl in Hc. unfold must_stay, with_reading, code_reading, plain_reading, abs_dir, r_pre, r_ow. simpl.
+    destruct (g es) eqn:E; [apply Hg in E; congruence|]. apply orb_true_r.
+  - unfold code_reading. destruct (resolve q) as [| | |es'|q']; try reflexivity.
+Qed.
+
+Lemma link_must_stay g sc q : must_stay (on_path g sc (FLink q)) = true.
+Proof. unfold on_path, code_reading. destruct (resolve q) as [| | |es'|q']; try reflexivity. Qed.
+
+Lemma no_overwrite_must_stay g sc p : overwrite sc = false -> p <> FAbsent -> must_stay (on_path g sc p) = true.
+Proof.
+  intros Ho Hne. destruct p as [| | |es|q]; try reflexivity; [congruence| |apply link_must_stay].
+  unfold on_path, must_stay, with_reading, code_reading, plain_reading, abs_dir, r_pre, r_ow. simpl. rewrite Ho. reflexivity.
+Qed.
+
+Lemma stays_everywhere sc : must_stay sc = true ->
+  (forall s, reach v_fix sc s -> dk s = pre sc) /\
+  snd (seq_run v_fix sc) = pre sc /\
+  fst (seq_run v_fix sc) = Raise /\
+  (forall s, reach v_fix sc s -> final s = true -> outcome_of s = Raise).
+Proof.
+  intros Hs. pose proof (must_stay_must_raise sc Hs) as Hr. repeat split.
+  - intros s R. destruct (inv_reach sc s R) as (G & _). exact (G Hs).
+  - exact (seq_stays sc Hs).
+  - rewrite seq_fix_outcome, Hr. reflexivity.
+  - intros s R F. destruct (returns_iff_allowed sc s R F) as [[_ H]|[H _]]; [congruence|exact H].
+Qed.
+
+Theorem non_cache_path_kept g sc p : sound_guard g -> is_cache p = false -> p <> FAbsent ->
+  let sc' := on_path g sc p in
+  (forall s, reach v_fix sc' s -> dk s = pre sc') /\ snd (seq_run v_fix sc') = pre sc' /\
+  fst (seq_run v_fix sc') = Raise /\ (forall s, reach v_fix sc' s -> final s = true -> outcome_of s = Raise).
+Proof. intros Hg Hc Hne. apply stays_everywhere. apply non_cache_must_stay; assumption. Qed.
+
+Theorem no_overwrite_path_kept g sc p : overwrite sc = false -> p <> FAbsent ->
+  let sc' := on_path g sc p in
+  (forall s, reach v_fix sc' s -> dk s = pre sc') /\ snd (seq_run v_fix sc') = pre sc' /\
+  fst (seq_run v_fix sc') = Raise /\ (forall s, reach v_fix sc' s -> final s = true -> outcome_of s = Raise).
+Proof. intros Ho Hne. apply stays_everywhere. apply no_overwrite_must_stay; assumption. Qed.
+
+Theorem link_path_kept g sc q :
+  let sc' := on_path g sc (FLink q) in
+  (forall s, reach v_fix sc' s -> dk s = pre sc') /\ snd (seq_run v_fix sc') = pre sc' /\
+  fst (seq_run v_fix sc') = Raise /\ (forall s, reach v_fix sc' s -> final s = true -> outcome_of s = Raise).
+Proof. apply stays_everywhere. apply link_must_stay. Qed.
+
+(* a guard that goes by the NAMES of the entries ("the marker, or only entries called patch_...: the remains of an
+   interrupted creation").  For EVERY listing without the marker whose entries are all called patch_... - the empty
+   listing among them - and every fault-free creation with overwrite: the statement obliges the call to raise and to
+   keep the directory, yet the pipeline behind that guard deletes it and returns the new catalog, sequentially and
+   in every interleaving, and no such observation satisfies the statement *)
+Theorem name_guard_deletes sc es :
+  has_marker es = false -> forallb patch_named es = true ->
+  overwrite sc = true -> early sc = false -> flt sc = None -> empty_centre sc = false ->
+  let judged_sc := on_path guard_marker sc (FDir es) in
+  let run_sc := on_path guard_names sc (FDir es) in
+  must_raise judged_sc = true /\ must_stay judged_sc = true /\
+  seq_run v_fix run_sc = (Return (input sc, true), TDir false (input sc) true) /\
+  (forall s, reach v_fix run_sc s -> final s = true -> outcome_of s = Return (input sc, true)) /\
+  (forall s, reach v_fix run_sc s -> final s = true -> dk s = TDir false (input sc) true) /\
+  TDir false (input sc) true <> pre judged_sc /\
+  (forall k c untouched opens, spec_ok judged_sc (ORet k c) untouched opens = false).
+Proof.
+  intros Hm Hn Ho He Hf Hc judged_sc run_sc.
+  assert (Hst : must_stay judged_sc = true).
+  { apply non_cache_must_stay; [exact guard_marker_sound|exact Hm|discriminate]. }
+  assert (Hmr : must_raise judged_sc = true) by (apply must_stay_must_raise; exact Hst).
+  assert (Hrun : must_raise run_sc = false).
+  { unfold run_sc, on_path, must_raise, with_reading, code_reading, plain_reading, abs_dir, guard_names,
+      mfault, wfault_init, wfault_final, r_pre, r_ow. simpl.
+    rewrite He, Hf, Hc, Ho, Hm, Hn. reflexivity. }
+  assert (Hin : input run_sc = input sc) by reflexivity.
+  repeat split.
+  - exact Hmr.
+  - exact Hst.
+  - rewrite (surjective_pairing (seq_run v_fix run_sc)), seq_fix_outcome, Hrun, (seq_fix_dir run_sc Hrun), Hin. reflexivity.
+  - intros s R F. destruct (returns_iff_allowed run_sc s R F) as [[H _]|[_ H]]; [rewrite H, Hin; reflexivity|congruence].
+  - intros s R F. destruct (returns_iff_allowed run_sc s R F) as [[H _]|[_ H]]; [|congruence].
+    destruct (inv_reach run_sc s R) as (_ & _ & J). unfold outcome_of in H.
+    destruct (mp s); try discriminate. destruct J as (_ & J). rewrite J, Hin. reflexivity.
+  - unfold judged_sc, on_path, with_reading, code_reading, plain_reading, abs_dir, guard_marker, r_pre. simpl.
+    rewrite Hm. discriminate.
+  - intros k c u o. unfold spec_ok, cl_return_exact, cl_no_hang. rewrite Hmr. reflexivity.
+Qed.
+
+Definition sc_names : scen := mk_scen 3 None TAbsent true false false.
+Theorem name_guard_refuted : ~ sound_guard guard_names /\ exists sc es,
+  is_cache (FDir es) = false /\ guard_names es = true /\
+  must_stay (on_path guard_marker sc (FDir es)) = true /\
+  seq_run v_fix (on_path guard_names sc (FDir es)) = (Return (input sc, true), TDir false (input sc) true) /\
+  par_all v_fix (on_path guard_names sc (FDir es)) = Some (Return (input sc, true), TDir false (input sc) true).
+Proof.
+  split.
+  - intros H. specialize (H [] eq_refl). discriminate.
+  - exists sc_names, []. vm_compute. repeat split; reflexivity.
+Qed.
